@@ -13,7 +13,7 @@ RULE = ('case = generated pipeline (task classes with every input form: by class
         'declaration error (dangling input, self-loop, 2-/3-cycle). oracle = reference graph (names, input bindings by object identity, '
         'graph edges, required/dependent closures for all tasks; construction must fail for cyclic/dangling specs). non-trivial = '
         '>=3 tasks and >=1 edge, or an injected error; distinct = hash(modules, files, root, injection)')
-REQUIRED = ['builds', 'valid_specs', 'tasks_built', 'edges_checked', 'closure_checks', 'expected_error_cycle', 'expected_error_missing_input',
+REQUIRED = ['closure_sequences', 'builds', 'valid_specs', 'tasks_built', 'edges_checked', 'closure_checks', 'expected_error_cycle', 'expected_error_missing_input',
             'errors_reported']
 ASSUMPTIONS = ['semantics of declarations as in DESIGN.md Appendix A; any exception raised by construction counts as "fails with an error"',
                'two different classes with one group-qualified name, and namespace-qualified references that start with the declaring '
@@ -21,6 +21,39 @@ ASSUMPTIONS = ['semantics of declarations as in DESIGN.md Appendix A; any except
 BUDGET = {'quick': 60, 'thorough': 1200}
 PROPS = {'C08'}
 FEAT = {'contexts': False, 'global_vars': False, 'objects': False}
+
+
+def seq_after(lab, ref, spec, root, st, res, witness):
+    """closure queries repeated around include_self queries and force(): answers must stay the transitive closures"""
+    import random as _r
+    rng = _r.Random(len(ref.tasks))
+    names = list(ref.tasks)
+    r = lab.run([{'op': 'build', 'chain': 'c', 'root': root}, {'op': 'inspect', 'chain': 'c', 'what': 'deps_seq', 'force': rng.sample(names, min(2, len(names)))}])
+    from ..lab.harness import session_problem
+    if session_problem(r):
+        res.inconclusive.append(session_problem(r))
+        return
+    o = r['steps'][1]
+    if not o['ok']:
+        res.violate(f'closure queries raised {o.get("exc")}: {o.get("msg")}', witness=witness, facts={'tag': 'closure_seq'})
+        return
+    res.count('closure_sequences')
+    snap = r['steps'][0]['snapshot']['tasks']
+    ident = {d['fullname']: d['id'] for d in snap.values()}
+    for n in names:
+        p1, p2, ws = o['plain1'][n], o['plain2'][n], o['with_self'][n]
+        if p1 != p2:
+            res.violate(f'required/dependent tasks of {n} changed after include_self queries / force: {p1} -> {p2}', witness=witness, facts={'tag': 'closure_seq'})
+            return
+        me = snap[n]['fullname']
+        for k in (0, 1):
+            if set(ident[x] for x in ws[k]) != set(ident[x] for x in p1[k]) | {snap[n]['id']}:
+                res.violate(f'include_self closure of {n} is {ws[k]}, plain closure is {p1[k]}', witness=witness, facts={'tag': 'closure_seq'})
+                return
+        dep_on = {snap[m]['id'] for m in o['dependent_on'][n]}
+        if dep_on - {snap[n]['id']} != {ident[x] for x in p1[1]} - {snap[n]['id']}:
+            res.violate(f'is_task_dependent_on disagrees with dependent_tasks for {n}: {o["dependent_on"][n]} vs {p1[1]}', witness=witness, facts={'tag': 'closure_seq'})
+            return
 
 
 def run_case(case) -> CaseResult:
@@ -31,7 +64,8 @@ def run_case(case) -> CaseResult:
         r = rng.random()
         if r < 0.3:
             inject = rng.choice(['dangling', 'selfloop', 'cycle2', 'cycle3'])
-        run_build_case(rng, res, PROPS, feat=dict(FEAT, **case.get('feat', {})), inject=inject, parameter_mode=case.get('parameter_mode', True))
+        run_build_case(rng, res, PROPS, feat=dict(FEAT, **case.get('feat', {})), inject=inject, parameter_mode=case.get('parameter_mode', True),
+                       after=seq_after if (i % 3 == 0 and case.get('parameter_mode', True)) else None)
         if len(res.violations) > 3:
             break
     return res
